@@ -13,18 +13,27 @@ Units == { Zero, One, FromSmall(14000000), Pow2(32), Sub(Pow2(63), One), Pow2(63
 Coefs == { Zero, One, FromSmall(44), Pow2(32), U64 }
 Consts == { Zero, FromSmall(155381), U64 }
 LSizes == { Zero, One, FromSmall(16384), Sub(Pow2(32), One) }
-Cases == [fn : {"ref"}, size : Sizes, p : Prices]
+\* sizes far beyond the 200 KiB ledger cap (the quantifier runs to 2^32): decided by the zero-price and lower-bound rules
+BigSizes == {FromSmall(6246399), FromSmall(6246400), FromSmall(25600*457+1), FromSmall(2147483647), Sub(Pow2(32), One)}
+BigPrices == {R(Zero, One), R(Zero, U64), R(FromSmall(577), FromSmall(10000)), R(One, U64)}
+Cases == [fn : {"ref"}, size : Sizes, p : Prices] \cup [fn : {"refbig"}, size : BigSizes, p : BigPrices]
    \cup [fn : {"exu"}, mem : Units, steps : Units, pm : Prices, ps : {R(FromSmall(721), FromSmall(10000000)), R(Zero, One), R(U64, One), R(One, FromSmall(3))}]
    \cup [fn : {"lin"}, size : LSizes, a : Coefs, b : Consts]
 Init == c \in Cases
 Next == UNCHANGED c
-Scn == CASE c.fn = "ref" -> [t |-> "SCN", fn |-> "ref", size_n |-> B(FromSmall(c.size)), pn_n |-> B(c.p.n), pd_n |-> B(c.p.d)]
+Scn == CASE c.fn = "refbig" -> [t |-> "SCN", fn |-> "ref", size_n |-> B(c.size), pn_n |-> B(c.p.n), pd_n |-> B(c.p.d)]
+         [] c.fn = "ref" -> [t |-> "SCN", fn |-> "ref", size_n |-> B(FromSmall(c.size)), pn_n |-> B(c.p.n), pd_n |-> B(c.p.d)]
          [] c.fn = "exu" -> [t |-> "SCN", fn |-> "exu", mem_n |-> B(c.mem), steps_n |-> B(c.steps),
                              mn_n |-> B(c.pm.n), md_n |-> B(c.pm.d), sn_n |-> B(c.ps.n), sd_n |-> B(c.ps.d)]
          [] c.fn = "lin" -> [t |-> "SCN", fn |-> "lin", size_n |-> B(c.size), a_n |-> B(c.a), b_n |-> B(c.b)]
 \* L1 = L0 on the grid
 ClosedEqRecursion == c.fn = "ref" => REq(ClosedForm(c.size, c.p), RefScriptFeeExact(c.size, c.p))
 \* floor is monotone in size (sanity of the definition)
+\* the shortcuts of RefExpect agree with the recursion where both are computable (41 tiers)
+ShortcutsSound == c.fn = "ref" => LET x == RefExpect(FromSmall(c.size), c.p) y == RefScriptFeeExact(c.size, c.p) IN
+                    IF x.k = "overflow" THEN Geq(y.n, Mul(P64, y.d)) ELSE REq(x.x, y)
+\* every big-size case is decided without unfolding (or is small enough to unfold): 1/(2^64-1) at 244 tiers is the exception, left to thorough
+BigDecided == c.fn = "refbig" /\ ~(c.p.n = One /\ Lt(c.size, FromSmall(25600*457))) => RefExpect(c.size, c.p).k \in {"val", "overflow"}
 Monotone == c.fn = "ref" /\ c.size > 0 =>
    LET x == RefScriptFeeExact(c.size, c.p) y == RefScriptFeeExact(c.size - 1, c.p) IN Leq(Mul(y.n, x.d), Mul(x.n, y.d))
 EmitScn == Emit(Scn)
